@@ -232,6 +232,31 @@ def explore_cues(ctx):
         lines = [l for l in out.split("\n") if "-->" in l]
         if len(lines) != 2 or lines[0] != f"00:01.000 --> 00:02.000 {st}" or lines[1] != "00:03.000 --> 00:04.000":
             bad["verbatim"].append({"settings": st, "timing_lines_written": lines})
+    # a cue that is not emitted (no payload, or its timing line directly followed by another one) keeps its settings to itself
+    for label, doc, want in (
+            ("a cue with settings and no payload, then a cue without settings",
+             "WEBVTT\n\n00:01.000 --> 00:02.000 line:0 position:20%\n\n00:03.000 --> 00:04.000\nplain\n\n00:05.000 --> 00:06.000 align:left\nlast\n",
+             ["00:03.000 --> 00:04.000", "00:05.000 --> 00:06.000 align:left"]),
+            ("a timing line with settings directly followed by one without",
+             "WEBVTT\n\n00:01.000 --> 00:02.000 line:0 position:20%\n00:03.000 --> 00:04.000\nplain\n\n00:05.000 --> 00:06.000\nlast\n",
+             ["00:03.000 --> 00:04.000", "00:05.000 --> 00:06.000"]),
+            ("cues with and without settings alternating",
+             "WEBVTT\n\n00:01.000 --> 00:02.000 line:0\na\n\n00:03.000 --> 00:04.000\nb\n\n00:05.000 --> 00:06.000 size:35%\nc\n\n00:07.000 --> 00:08.000\nd\n",
+             ["00:01.000 --> 00:02.000 line:0", "00:03.000 --> 00:04.000", "00:05.000 --> 00:06.000 size:35%", "00:07.000 --> 00:08.000"])):
+        n += 1
+        try:
+            rc, r = obj("pycaption/webvtt.py", "WebVTTReader")
+            cs = F.call_function(rc.find_method("read"), [doc], {}, self_value=r)
+            wc, w = obj("pycaption/webvtt.py", "WebVTTWriter")
+            out = F.call_function(wc.find_method("write"), [cs], {}, self_value=w)
+        except FoldRaise as e:
+            bad["verbatim"].append({"document": label, "raises": f"{e.exc_name}: {e}"[:120]})
+            continue
+        except AnalysisError as e:
+            raise AnalysisError(f"WebVTT read -> write cannot be folded ({label}): {e}")
+        lines = [l for l in out.split("\n") if "-->" in l]
+        if lines != want:
+            bad["verbatim"].append({"document": label, "source": doc, "timing_lines_written": lines, "required": want})
     # splitting by node layout
     Wd = World(ctx)
     Wd.F = F
